@@ -62,8 +62,7 @@ func genRoutesPlan(seed uint64, tier string) *Plan {
 func execRoutes(t *testing.T, p *Plan) *Result {
 	r := &Result{}
 	w := runWorld(t, p, func(w *World) {
-		st := &relayState{w: w, c: &p.Cfg, entries: flattenRoutes(p.Cfg.Routes), learned: map[string][]learnedAt{},
-			seenBranches: map[string]string{}, routeAnswers: map[string]string{}}
+		st := newRelayState(w, &p.Cfg)
 		for i := range p.Ops {
 			op := &p.Ops[i]
 			switch op.Kind {
